@@ -56,6 +56,8 @@ def check(run):
         from . import C06 as _C06c
         bc = run.borrow("C06", only=r"tags_with_set|key-is-rule-address|evictors", why="every tag switch re-allocates the active tagged rules: a regex cached under a freed address would be used for whichever rule lands there")
         run.guard("C07.via.C06.3.cache-key-validity", cfg, lambda: _C06c.rule_cache_key(bc, F, cfg))
+        be = run.borrow("C01", why="rules that differ only in their tag are different rules: no entry point may de-duplicate them away")
+        run.guard("C07.via.C01.9.entry-points", cfg, lambda: _C01.rule_entry_points(be, F, cfg))
 
 
 def probes(F, run=None):
